@@ -118,9 +118,15 @@ def call(I, name, args, kwargs, fr):
             if ty is None:
                 raise Unsupported("ghost %s undeclared" % key)
             st.ghost[key] = I.fresh_of_type(ty, "ghost." + key)
-            st.ghost_init[key] = st.ghost[key] if hasattr(st, "ghost_init") else None
-        if getattr(fr, "in_old", False) and fr.old_ghost is not None and key in fr.old_ghost:
-            return fr.old_ghost[key]
+            st.ghost_init[key] = st.ghost[key]
+        if fr.in_old:
+            f = fr
+            while f is not None:
+                if f.old_ghost is not None and key in f.old_ghost:
+                    return f.old_ghost[key]
+                f = f.closure
+            # not in the snapshot: the ghost was untouched before the snapshot, i.e. still its initial value
+            return st.ghost_init.get(key, st.ghost[key])
         return st.ghost[key]
     if name == "fn":
         # uninterpreted function application  fn("name", "ret", args...)
